@@ -436,3 +436,91 @@ func VerifC05_Decode(idx int) {
 		verifAssert("decoded field equals the encoded one", vfEqual(fld, gf))
 	}
 }
+
+// VerifC05_Batch: the version that gates a message is the one in its header,
+// whatever other ProtocolVersion elements the message carries and wherever they
+// stand: a Discover Versions item listing version 1.w precedes (order 0) or
+// follows (order 1) an item with version-gated fields, in a message whose header
+// says 1.v (v, w symbolic). dir 0: requests (Get with KeyWrapType, 1.4; Locate with OffsetItems,
+// 1.3); dir 1: responses (Locate with LocatedItems, 1.3).
+func VerifC05_Batch(dir, order int) {
+	// both versions symbolic: every pair of minors 0..9 (5..9: later than any known)
+	v32, w32 := verifNondetInt32("v"), verifNondetInt32("w")
+	verifAssume(v32 >= 0 && v32 <= 9 && w32 >= 0 && w32 <= 9)
+	v := int(v32)
+	hv := ProtocolVersion{ProtocolVersionMajor: 1, ProtocolVersionMinor: v32}
+	lv := []ProtocolVersion{{ProtocolVersionMajor: 1, ProtocolVersionMinor: w32}}
+	var msg any
+	type gated struct {
+		tag, minor int
+	}
+	var fields []gated
+	if dir == 0 {
+		dv := newRequestPayload(OperationDiscoverVersions)
+		reflect.ValueOf(dv).Elem().FieldByName("ProtocolVersion").Set(reflect.ValueOf(lv))
+		get := newRequestPayload(OperationGet)
+		reflect.ValueOf(get).Elem().FieldByName("UniqueIdentifier").SetString("id")
+		reflect.ValueOf(get).Elem().FieldByName("KeyWrapType").SetUint(uint64(AsRegistered))
+		loc := newRequestPayload(OperationLocate)
+		reflect.ValueOf(loc).Elem().FieldByName("OffsetItems").SetInt(3)
+		fields = []gated{{TagKeyWrapType, 4}, {TagOffsetItems, 3}}
+		m := &RequestMessage{}
+		m.Header.ProtocolVersion = hv
+		items := []RequestBatchItem{{Operation: OperationGet, RequestPayload: get}, {Operation: OperationLocate, RequestPayload: loc}}
+		d := RequestBatchItem{Operation: OperationDiscoverVersions, RequestPayload: dv}
+		if order == 0 {
+			items = append([]RequestBatchItem{d}, items...)
+		} else {
+			items = append(items, d)
+		}
+		m.BatchItem = items
+		m.Header.BatchCount = int32(len(items))
+		msg = m
+	} else {
+		dv := newResponsePayload(OperationDiscoverVersions)
+		reflect.ValueOf(dv).Elem().FieldByName("ProtocolVersion").Set(reflect.ValueOf(lv))
+		loc := newResponsePayload(OperationLocate)
+		n := int32(2)
+		reflect.ValueOf(loc).Elem().FieldByName("LocatedItems").Set(reflect.ValueOf(&n))
+		fields = []gated{{TagLocatedItems, 3}}
+		m := &ResponseMessage{}
+		m.Header.ProtocolVersion = hv
+		items := []ResponseBatchItem{{Operation: OperationLocate, ResultStatus: ResultStatusSuccess, ResponsePayload: loc}}
+		d := ResponseBatchItem{Operation: OperationDiscoverVersions, ResultStatus: ResultStatusSuccess, ResponsePayload: dv}
+		if order == 0 {
+			items = append([]ResponseBatchItem{d}, items...)
+		} else {
+			items = append(items, d)
+		}
+		m.BatchItem = items
+		m.Header.BatchCount = int32(len(items))
+		msg = m
+	}
+	wire := ttlv.MarshalTTLV(msg)
+	for _, f := range fields {
+		n := c05Count(wire, f.tag)
+		if v >= f.minor {
+			verifAssert("valid at the header's version: the element is present", n == 1)
+		} else {
+			verifAssert("introduced after the header's version: the element is absent", n == 0)
+		}
+	}
+	// decoding what a 1.4 peer would send under the same header: gated the same way
+	full := msg
+	var back any
+	var err error
+	if dir == 0 {
+		var m RequestMessage
+		err = ttlv.UnmarshalTTLV(wire, &m)
+		back = &m
+	} else {
+		var m ResponseMessage
+		err = ttlv.UnmarshalTTLV(wire, &m)
+		back = &m
+	}
+	_ = full
+	verifAssert("the encoding decodes", err == nil)
+	if err == nil {
+		verifAssert("re-encoding the decoded message gives the same bytes", verifBytesEq(wire, ttlv.MarshalTTLV(back)))
+	}
+}
